@@ -1,6 +1,6 @@
 """C31 - configuration sources combine with fixed precedence and round-trip.
 
-spec/Cli.tla (families "c31one", "c31all", "c31rt") carries the server's option table
+spec/Cli.tla (family "c31" = "c31one" + "c31all" + "c31rt") carries the server's option table
 (name, flag type) and Resolve = flag > env > file > default.  TLC enumerates (a) every option
 x every subset of {file, env, flag} (bool options: every assignment of values to the present
 sources), (b) whole configurations in which every option gets a subset at once (eight
@@ -20,9 +20,13 @@ TYPES = ["string", "int", "uint64", "float64", "bool", "duration", "stringSlice"
 
 
 def run(ctx):
-    for cfg in ("C31_one", "C31_all", "C31_rt"):
-        r = ctx.generate("Cli", cfg, mode="bfs", timeout=600)
-        ctx.drive("bind/clib", "TestC31", beh=r.behaviours, label="C31/" + cfg, timeout=1200)
+    # one TLC run for the three families (family "c31"): 432 + 8 + 131 behaviours + the table
+    r = ctx.generate("Cli", "C31", mode="bfs", timeout=600)
+    ctx.drive("bind/clib", "TestC31", beh=r.behaviours, label="C31/C31", timeout=1200)
+    if ctx.tier == "thorough":  # the same behaviours under two more value refinements
+        for j in (1, 2):
+            ctx.drive("bind/clib", "TestC31", beh=r.behaviours, env={"VERIF_SEED": int(ctx.seed) + 100 * j},
+                      label="C31/C31/values%d" % j, timeout=1200)
     missing = []
     for t in TYPES:
         for s in ("", "file", "env", "flag", "file+env", "file+flag", "env+flag", "file+env+flag"):
